@@ -285,7 +285,7 @@ class _FilePersistence(_ConcretePersistence):
                     self._process_lines(data_file, current_runs, None)
         except IOError:
             self.ui.debug_error_info("No data loaded, since %s does not exist.\n"
-                                      % self._data_filename)
+                                      % escape_braces(str(self._data_filename)))
         return self._start_time
 
     def _process_lines(self, data_file, runs, filtered_data_file):
